@@ -32,11 +32,11 @@ def run(ctx):
     q = ctx.quick
     classes = list(T.CLASSES.keys())
     ctx.rule = ("training pipelines over (char window, char n, type window, type n) in 0..3 x 8 solvers x corpus classes "
-                f"{classes} x {{no dictionary, dictionary}}: Trainer::new, add_example, train, to_vec, read, Predictor::new with "
+                f"{classes} x {{no dictionary, dictionary, dictionary with the empty word, dictionary with a repeated word}}: Trainer::new, add_example, train, to_vec, read, Predictor::new with "
                 "and without tag prediction, predict and fill_tags on evaluation texts; every run is one event validated by "
                 "Trace_Train!PipelineOk (a model or an error, never a panic; every later stage ok; weights within i16); quick = "
                 "must-run list + seeded sample of TLC's enumeration; non-trivial = run in which training returned a model")
-    consts = {"Sizes": {0, 1, 2, 3}, "Solvers": set(range(8)), "NClasses": len(classes), "DictKinds": {0, 1}}
+    consts = {"Sizes": {0, 1, 2, 3}, "Solvers": set(range(8)), "NClasses": len(classes), "DictKinds": {0, 1, 2, 3}}
     res = vlib.tlc("C11-gen-pipeline", "Gen_Pipeline", vlib.cfg_text(constants=consts, invariants=["Emit"]))
     sweep = vlib.cases_from(res["out"])
     ctx.add_tlc(res, f"Gen_Pipeline: {len(sweep)} configurations enumerated")
@@ -44,6 +44,9 @@ def run(ctx):
         rnd = random.Random(ctx.seed)
         must = [c for c in sweep if (c["cw"], c["cn"], c["tw"], c["tn"]) in ((3, 3, 3, 3), (1, 1, 2, 2), (2, 2, 1, 1), (1, 3, 1, 3), (0, 0, 0, 0), (0, 2, 2, 0))
                 and c["solver"] == 1 and c["dk"] == 1]
+        # dictionaries with the empty word / a repeated word (an error from Trainer::new is fine; a panic later is not)
+        must += [c for c in sweep if (c["cw"], c["cn"], c["tw"], c["tn"]) in ((2, 2, 2, 2), (0, 0, 0, 0)) and c["solver"] in (1, 5) and c["dk"] in (2, 3)
+                 and c["cls"] in (4, 6)]
         sol = [c for c in sweep if (c["cw"], c["cn"], c["tw"], c["tn"]) == (2, 2, 2, 2) and c["dk"] == 0 and c["cls"] in (4, 5, 6)]
         rest = rnd.sample(sweep, 160)
         sel = {json.dumps(c, sort_keys=True): c for c in must + sol + rest}
@@ -63,7 +66,8 @@ def run(ctx):
     send = []
     for i, c in enumerate(sweep):
         corpus, tagdict = T.CLASSES[classes[c["cls"] - 1]]
-        d = [T.cps("a"), T.cps("aあ"), T.cps("1aあa")] if c["dk"] else []
+        d = {0: [], 1: [T.cps("a"), T.cps("aあ"), T.cps("1aあa")], 2: [T.cps("a"), [], T.cps("aあ")],
+             3: [T.cps("a"), T.cps("aあ"), T.cps("a")]}[c["dk"]]
         send.append({"id": i, "kind": "train", "cfg": {"cw": c["cw"], "cn": c["cn"], "tw": c["tw"], "tn": c["tn"], "dict": d, "dn": 2,
                                                       "solver": c["solver"], "eps": 0.1, "cost": 1.0},
                      "corpus": corpus, "tagdict": tagdict, "eval": evals,
